@@ -21,12 +21,6 @@ inductive Item where
   | ph (k : Option Nat)
   deriving DecidableEq, Repr
 
-def isDigit (c : Char) : Bool := 48 ≤ c.toNat && c.toNat ≤ 57
-
-/-- characters that continue a word / number token in all three engines (`$` in Postgres and MySQL identifiers) -/
-def isWord (c : Char) : Bool :=
-  isDigit c || (65 ≤ c.toNat && c.toNat ≤ 90) || (97 ≤ c.toNat && c.toNat ≤ 122) || c == '_' || c == '$' || 128 ≤ c.toNat
-
 def parseNat (s : List Char) : Nat := s.foldl (fun a c => 10 * a + (c.toNat - 48)) 0
 
 /-- the part of `s` that was consumed when `rest` is what is left -/
@@ -97,12 +91,6 @@ open SeaQ.Escape SeaQ.Render SeaQ.Stmt
 /-- a character that is read as itself wherever it stands -/
 def plainChar (d : Backend) (c : Char) : Bool :=
   c != '\'' && c != (Ident.quoteOf d).1 && !otherQuote d c && c != mark d
-
-/-- does the previous character continue a word after writing `t`? -/
-def lastWord (pw : Bool) (t : List Char) : Bool :=
-  match t.getLast? with
-  | some c => isWord c
-  | none => pw
 
 /-- plain text `t` followed by `nxt`: a Postgres `E` must not come to stand before a quote -/
 def plainFollow (d : Backend) (nxt : Option Char) (t : List Char) : Bool :=
